@@ -76,7 +76,15 @@ static void reduce(const int D[M][M], int n, int* low, int* pairOf, int R[M][M],
 // symbolic filtration: position by position, a not-yet-used simplex all of whose facets are already present
 static void choose_filtration() {
   bool used[NSUB]; for (int i = 0; i < NSUB; i++) used[i] = false;
-  for (int i = 0; i < M; i++) { int m = vp_int("cell", 1, NSUB - 1); vp_assume(!used[m]); for (int s = 1; s < NSUB; s++) if ((s & m) == s && s != m) vp_assume(used[s]); used[m] = true; cell[i] = m;
+  for (int i = 0; i < M; i++) { int m = vp_int("cell", 1, NSUB - 1);
+#ifdef VP_FORKCELL   /* one path per concrete filtration (enumerated by the solver): for the larger units, where a symbolic cell makes every later query expensive */
+    m = vp_fork_int(m);
+#endif
+    vp_assume(!used[m]);
+#ifdef VP_MAXDIM   /* only cells of dimension <= VP_MAXDIM (graphs for 1) */
+    vp_assume(pc(m) <= VP_MAXDIM + 1);
+#endif
+    for (int s = 1; s < NSUB; s++) if ((s & m) == s && s != m) vp_assume(used[s]); used[m] = true; cell[i] = m;
 #if defined(VP_UNITS) && !VP_Z2
     unit[i] = pc(m) > 1 ? vp_fork_int(vp_int("unit", 1, MOD - 1)) : 1;
 #else
